@@ -1,5 +1,6 @@
 import IrVerif.Drive.Util
 import IrVerif.Model.Extract
+import IrVerif.Model.Clone
 /-! Protocol handler for the C18 model (`IrVerif.Extract`).
 
 Requests carry the world: `vals` = `[[name, producer|null, graph|null, isInit], ...]` (index = value id),
@@ -109,6 +110,96 @@ def hypJ (W : World) (T : Target) (v : View) : Json :=
 def orderOKB (T : Target) (v : View) : Bool :=
   v.nodes == (dedupLast T.nodes).filter (fun n => v.nodes.contains n)
 
+/-! ### the view as a heap of C13's model (instance of `C18_clone_stage_C13_exact` on every generated cut)
+
+Value `v` is the cell `v` (so the value ids of the tree are heap indices, as `RepG` asks), its two metadata
+containers follow the value cells; graph / node / attribute cells are appended in post-order. -/
+
+mutual
+  /-- cells of the graph (to be placed from `off` on) and the index of its graph cell -/
+  partial def heapG (nm : Nat → Option String) (view : Bool) (off : Nat) : GraphT → List Clone.Cell × Nat
+    | .mk gid ins inits outs ns =>
+      let (cs, idxs) := heapNs nm off ns
+      let base := off + cs.length
+      (cs ++ [Clone.Cell.dict {}, Clone.Cell.dict {},
+              Clone.Cell.graph { name := some s!"g{gid}", inputs := ins, outputs := outs,
+                                 inits := inits.map (fun v => ((nm v).getD "", v)), nodes := idxs,
+                                 props := base, mstore := base + 1, view := view }], base + 2)
+  partial def heapNs (nm : Nat → Option String) (off : Nat) : List NodeT → List Clone.Cell × List Nat
+    | [] => ([], [])
+    | n :: ns =>
+      let (c1, i1) := heapN nm off n
+      let (c2, i2) := heapNs nm (off + c1.length) ns
+      (c1 ++ c2, i1 :: i2)
+  partial def heapN (nm : Nat → Option String) (off : Nat) : NodeT → List Clone.Cell × Nat
+    | .mk ins outs bs =>
+      let (cs, gidxs) := heapGs nm off bs
+      let base := off + cs.length
+      let k := gidxs.length
+      let attrCells := (List.range k).map (fun i => Clone.Cell.attr { name := s!"b{i}", v := .graph (gidxs.getD i 0) })
+      (cs ++ attrCells ++ [Clone.Cell.dict {}, Clone.Cell.dict {},
+         Clone.Cell.node { name := some "n", opType := "Op", inputs := ins, outputs := outs,
+                           attrs := (List.range k).map (fun i => (s!"b{i}", base + i)),
+                           props := base + k, mstore := base + k + 1 }], base + k + 2)
+  partial def heapGs (nm : Nat → Option String) (off : Nat) : List GraphT → List Clone.Cell × List Nat
+    | [] => ([], [])
+    | g :: gs =>
+      let (c1, i1) := heapG nm false off g
+      let (c2, i2) := heapGs nm (off + c1.length) gs
+      (c1 ++ c2, i1 :: i2)
+end
+
+mutual
+  partial def depthT : GraphT → Nat
+    | .mk _ _ _ _ ns => (ns.map depthNT).foldl max 0 + 1
+  partial def depthNT : NodeT → Nat
+    | .mk _ _ bs => (bs.map depthT).foldl max 0
+end
+
+/-- the verdict of C13's scope walker on the view as a heap, against `cloneGO`: "agree" when both return or
+    both raise (the walker with a clear error), "n/a" where a hypothesis of `C18_clone_stage_C13_exact` fails
+    (a value without a name, a re-bound node output) -/
+def c13J (W : World) (v : View) : Json :=
+  let t : GraphT := .mk 0 v.inputs v.inits v.outputs (v.nodes.map W.nodeD)
+  let nv := W.vals.length
+  let nm : Nat → Option String := fun x => if (W.val x).name == "" then none else some (W.val x).name
+  let valCells := (List.range nv).map (fun x =>
+    Clone.Cell.val { name := nm x, props := nv + 2 * x, mstore := nv + 2 * x + 1 })
+  let dicts := (List.range (2 * nv)).map (fun _ => Clone.Cell.dict {})
+  let (cs, g) := heapG nm true (3 * nv) t
+  let heap := valCells ++ dicts ++ cs
+  let named := (defsG t).all (fun x => x < nv && (nm x).isSome)
+  if !(named && nrGB [] t) then Json.str "n/a"
+  else
+    let verdict := Clone.cloneVerdict (depthT t + 1) false heap g
+    match cloneGO {} t, verdict with
+    | .ok _, .ok _ => Json.str "agree:returns"
+    | .error _, .err (.raised _) => Json.str "agree:raises"
+    | .ok _, _ => Json.str "disagree:model-returns"
+    | .error _, .ok _ => Json.str "disagree:model-raises"
+    | .error _, _ => Json.str "disagree:walker-no-clear-error"
+
+/-- the view `extract` hands to the clone stage (none when an earlier stage raises) -/
+def preView (W : World) (T : Target) (ins outs : List Arg) : Option View :=
+  let m := valueMapping W T
+  match checkArgs W T m (ins ++ outs) with
+  | .error _ => none
+  | .ok () =>
+    let I := ins.map (resolveArg m)
+    let O := outs.map (resolveArg m)
+    match O with
+    | [] => none
+    | o :: _ =>
+      match W.graphOf o with
+      | none => none
+      | some p =>
+        match findSubgraph W (T.kind == Kind.function) T.nodes I O p with
+        | .error _ => none
+        | .ok (nodes, inited) =>
+          match viewInits W inited [] with
+          | .error _ => none
+          | .ok im => some { inputs := I, outputs := O, nodes := nodes, inits := im.map (·.2) }
+
 def isOkE {α : Type} : Except Err α → Bool
   | .ok _ => true
   | .error _ => false
@@ -118,6 +209,8 @@ def isOkE {α : Type} : Except Err α → Bool
     of the pipeline without the ownership checks -/
 def iffJ (W : World) (T : Target) (ins outs : List Arg) : Json :=
   let m := valueMapping W T
+  -- (under the D460 fix more calls pass the argument checks; the instance is only evaluated where the
+  -- repository's current checks pass, which is where `extractOF` = `extractO`: `C18_extract_D460`)
   match checkArgs W T m (ins ++ outs) with
   | .error _ => Json.null
   | .ok () =>
@@ -132,10 +225,18 @@ def iffJ (W : World) (T : Target) (ins outs : List Arg) : Json :=
         let fn := T.kind == Kind.function
         obj [("hyp", toJson (regionHypB W T p I O)), ("covered", toJson (coveredB W fn I O p)),
              ("needed", toJson (neededInB W fn T.nodes I O p)),
-             ("plain", toJson (isOkE (extract W T ins outs)))]
+             ("plain", toJson (isOkE (extract W T ins outs))),
+             -- hypothesis of C18_own_pass on the view the pipeline without ownership checks builds
+             ("own", match extract W T ins outs with
+                | .ok v => toJson (ownStaticB (.mk 0 v.inputs v.inits v.outputs (v.nodes.map W.nodeD)))
+                | .error _ => Json.null),
+             -- instance of C18_clone_stage_C13_exact on the view handed to the clone stage (returning or raising)
+             ("c13", match preView W T ins outs with
+                | some v => c13J W v
+                | none => Json.null)]
 
-def runJ (W : World) (T : Target) (ins outs : List Arg) : Json :=
-  match extractO W T ins outs with
+def runJ (W : World) (T : Target) (ins outs : List Arg) (d460 : Bool := false) : Json :=
+  match (if d460 then extractOF W T ins outs else extractO W T ins outs) with
   | .error e =>
     obj [("r", Json.str "raised"), ("kind", Json.str (reprStr e)), ("py", Json.str e.pyClass),
          ("iff", iffJ W T ins outs)]
@@ -153,7 +254,7 @@ def handle : Handler := fun m j =>
       let T ← parseTarget j
       let ins ← (← getArr j "ins").mapM parseArg
       let outs ← (← getArr j "outs").mapM parseArg
-      return runJ W T ins outs
+      return runJ W T ins outs ((j.getObjValAs? Bool "d460").toOption.getD false)
   | "extract.runmany" => some do
       let W ← parseWorld j
       let T ← parseTarget j
@@ -162,7 +263,7 @@ def handle : Handler := fun m j =>
         | .arr #[i, o] =>
           let ins ← (← i.getArr?).toList.mapM parseArg
           let outs ← (← o.getArr?).toList.mapM parseArg
-          pure (runJ W T ins outs)
+          pure (runJ W T ins outs ((j.getObjValAs? Bool "d460").toOption.getD false))
         | _ => throw "bad cut"
       return obj [("r", Json.arr rs.toArray)]
   | "extract.find" => some do
